@@ -263,8 +263,25 @@ pub fn execute(target: Target, t: &Trace, st: &mut Stats, ctx: &Ctx) -> Verdict 
                 let cls = classify(&f, &m);
                 if cls != Some(target) {
                     // not this property's operation: hidden state only, observable state adopted
+                    let pre_above_len = m.above.len();
+                    let was_alt = m.alt;
                     m.step(&f);
                     let o = observe(&vt);
+                    if target == Target::Scroll && cls.is_none() && !was_alt && !m.alt {
+                        // "no other control function adds to the scrollback" (printing that wraps on
+                        // the bottom margin is C04's, buffer switches and RIS replace the screen,
+                        // ED 3 is tolerated)
+                        let exempt = matches!(f, Function::Decset(_) | Function::Decrst(_) | Function::Ris | Function::Ed(avt::parser::EdScope::SavedLines));
+                        if !exempt {
+                            st.bump("non_scrolling_functions_checked_for_scrollback");
+                            if o.above.len() != pre_above_len {
+                                return Verdict::Violation {
+                                    rule: format!("{}/non-scrolling-function-changed-scrollback", id),
+                                    detail: format!("event #{} function {:?}: scrollback went from {} to {} lines", ei, f, pre_above_len, o.above.len()),
+                                };
+                            }
+                        }
+                    }
                     m.adopt(&o);
                     continue;
                 }
